@@ -20,6 +20,7 @@
  * cases: [0, nclosure)                       closure scopes (width x scope x alphabet slice)
  *        [nclosure, nclosure + nmatrix)      op x position x count x state-class matrix
  *        [.., ..+nrandom)                    seeded random histories (even: narrow, odd: wide)
+ *        [.., ..+NLONG)                      long strings (4095 .. 140000 characters) x the overflow argument classes
  */
 #include "vrt.h"
 #include "explore.h"
@@ -173,6 +174,10 @@ static const char *const rawtmpl[NRAW] = {
     "abcabcaabbccabcabcbacbaa", "bcabcabcacbabcbbcaaacbbcabcabcacbabcbbca"
 };
 enum { RAW_EMPTY = 0, RAW_A, RAW_B, RAW_C, RAW_AB, RAW_BC, RAW_CA, RAW_ABC, RAW_ABCA, RAW_CC, RAW_LONG24, RAW_LONG40 };
+/* long strings: *_str_n with aux == RAW_PATTERN reads from a PATLEN-character pattern buffer */
+#define RAW_PATTERN NRAW
+#define PATLEN ((size_t)140000)
+#define PATSLACK ((size_t)64)
 
 /* scope of the running generator */
 static size_t g_maxlen = SIZE_MAX;      /* results longer than this are outside the scope */
@@ -589,6 +594,30 @@ static void run_random(uint64_t idx)
 }
 
 /* ------------------------------------------------------------------ */
+/* long strings x overflow argument classes (cells in string_body.h)    */
+/* ------------------------------------------------------------------ */
+static const size_t longlens[] = { 4095, 4096, 4097, 5000, 65535, 65536, 70000, 140000 };
+#define NLONGLEN ((int)(sizeof(longlens) / sizeof(longlens[0])))
+#define NLONG (NLONGLEN * 4)
+static void run_long(int li)
+{
+    /* the most expensive lengths first */
+    const int wide = li & 1, spare = (li >> 1) & 1, k = NLONGLEN - 1 - (li >> 2);
+    const size_t L = longlens[k];
+    const int variant = (int)((vrt_seed + (unsigned)k + (unsigned)spare) & 1u);
+    char nm[64];
+
+    g_maxlen = SIZE_MAX; g_allow_grow = 1; g_refcap = L + PATLEN + 64;
+    n_set_variant(variant); w_set_variant(variant);
+    vrt_case_note("long %s charset=%d length=%zu capacity=%s", wide ? "wide" : "narrow", variant, L, spare ? "spare" : "size");
+    if (wide) w_run_long(L, spare ? 64 : 0); else n_run_long(L, spare ? 64 : 0);
+    snprintf(nm, sizeof(nm), "long.length.%zu", L);
+    vrt_count_dyn(nm, 1);
+    if (wide) VRT_COUNT("long.cases.wide"); else VRT_COUNT("long.cases.narrow");
+    if (spare) VRT_COUNT("long.cases.spare-capacity"); else VRT_COUNT("long.cases.built-to-size");
+}
+
+/* ------------------------------------------------------------------ */
 #include <time.h>
 static double cpu_now(void)
 {
@@ -605,7 +634,7 @@ static uint64_t ncases(void)
     nclosure = 0;
     for (k = 0; k < nscopes; k++) nclosure += 2 * scopes[k].nslices;
     nmatrix = 2 * NCAPMODES * SC_N * (K_NKINDS - 1) * NVARIANTS;
-    return (uint64_t)nclosure + nmatrix + nrandom();
+    return (uint64_t)nclosure + nmatrix + nrandom() + NLONG;
 }
 static void run_case(uint64_t idx)
 {
@@ -614,7 +643,8 @@ static void run_case(uint64_t idx)
     vrt_alloc_cap = VRT_ALLOC_CAP;
     if (idx < (uint64_t)nclosure) { run_closure((int)idx); VRT_COUNT_N("cpu-ms.closure", (cpu_now() - t0) * 1e3); }
     else if (idx < (uint64_t)(nclosure + nmatrix)) { run_matrix((int)(idx - nclosure)); VRT_COUNT_N("cpu-ms.matrix", (cpu_now() - t0) * 1e3); }
-    else { run_random(idx - nclosure - nmatrix); VRT_COUNT_N("cpu-us.random", (cpu_now() - t0) * 1e6); }
+    else if (idx < (uint64_t)(nclosure + nmatrix) + nrandom()) { run_random(idx - nclosure - nmatrix); VRT_COUNT_N("cpu-us.random", (cpu_now() - t0) * 1e6); }
+    else { run_long((int)(idx - nclosure - nmatrix - nrandom())); VRT_COUNT_N("cpu-ms.long", (cpu_now() - t0) * 1e3); }
     VRT_COUNT_N("calls.narrow", g_ncalls[0] - c0[0]);
     VRT_COUNT_N("calls.wide", g_ncalls[1] - c0[1]);
     VRT_COUNT_N("aborts.observed.narrow", g_naborts[0] - a0[0]);
@@ -649,7 +679,13 @@ static const char *const required[] = {
     "find_ch.nul.libc-points-at-terminator", "audit.query-sweeps",
     "compare.first-chars-differ-in-sign", "find_ch.negative-char.found", "find_str.needle-with-negative-char.found",
     "closure.charset-extremes", "matrix.cells.charset-extremes", "random.histories.charset-extremes",
-    "closure.states", "matrix.cells", "random.histories.narrow", "random.histories.wide", NULL
+    "closure.states", "matrix.cells", "random.histories.narrow", "random.histories.wide",
+    "long.cases.narrow", "long.cases.wide", "long.cases.spare-capacity", "long.cases.built-to-size", "long.strings.spare-capacity",
+    "long.length.4095", "long.length.4096", "long.length.4097", "long.length.5000", "long.length.65535", "long.length.65536",
+    "long.length.70000", "long.length.140000", "long.cells", "long.audit.object.size>=65535",
+    "long.abort.object-unchanged", "long.abort.pos-beyond-end", "long.abort.growth-over-lowered-cap",
+    "long.abort.growth-unrepresentable-or-over-cap", "long.abort.no-undersized-request",
+    "long.erase-most", "long.erase-most.then-shrink", NULL
 };
 static const struct vrt_harness H = { "string", ncases, run_case, winit, NULL, required, 16 };
 
